@@ -23,7 +23,11 @@ var mdRunes = []rune{'|', '<', '>', '&', '"', '\'', '\n', '\\', '`', 'a', ' ', 0
 func itemGen() *rapid.Generator[gen.Item] {
 	tok := gen.StrItem(gen.TokMD, 4)
 	anyItem := gen.AnyItem(gen.TokMD, 1)
+	hot := gen.ExpandingString([]string{"|", "&", "<", "\\", "\n", "`", "*", "\"", "&#124;"})
 	return rapid.Custom(func(t *rapid.T) gen.Item {
+		if gen.Rarely(t, "hot", 14) {
+			return gen.S(hot.Draw(t, "hot-text"))
+		}
 		switch rapid.IntRange(0, 11).Draw(t, "kind") {
 		case 0:
 			return gen.Item{K: "rune", N: int64(rapid.SampledFrom(mdRunes).Draw(t, "rune"))}
@@ -66,6 +70,9 @@ func caseGen() *rapid.Generator[Case] {
 			c.Script = withHdr.Draw(t, "script")
 		}
 		c.Align = rapid.SliceOfN(rapid.IntRange(0, 3), 0, 6).Draw(t, "align")
+		if rapid.IntRange(0, 2).Draw(t, "props?") == 0 {
+			c.Props = gen.PropHistGen(8).Draw(t, "props")
+		}
 		if rapid.IntRange(0, 3).Draw(t, "pre?") == 0 {
 			c.Pre = 1 + rapid.IntRange(0, len(c.Script.Ops)).Draw(t, "pre")
 		}
